@@ -49,7 +49,7 @@ PROPS = {
         "not_covered": ["`data` with a custom `with` converter (`attrs` with one is covered: receivers D14/D15)", "partition-invariance as a separately stated lemma (it is implicit in the oracle: awalk folds run_from over the concatenation)"],
     },
     "C16": {
-        "units": ["c16_body_conversion", "c16_generics", "c16_fields_helpers"],
+        "units": ["c16_body_conversion", "c16_generics", "c16_fields_helpers", "c16_passthrough_misc"],
         "gen": [{"corpus": "elems", "mode": "full"}],
         "classes": r"postcondition|invariant|post-condition of closure",
         "level_text": "Same emitted functions: the magic fields of the result are proved equal to the corresponding parts of the input element (ident, vis, ty, generics via FromGenerics, attrs = forwarded list, "
@@ -62,7 +62,8 @@ PROPS = {
         "not_covered": ["magic fields with `with` converters or wrapped in SpannedValue/WithOriginal/Result at L3", "Fields::to_tokens print round trip (quote!/TokenStream: not expressible)", "`data` / `fields` magic members with a `with` converter"],
     },
     "C09": {
-        "units": [],
+        # L2 functions that decide what a variant is called, whether it may be produced and what it inherits (tagged C09 in the preludes)
+        "units": ["c10_variant_core_options", "c10_codegen_views"],
         "gen": [{"corpus": "enums", "mode": "full"}],
         "classes": r"postcondition|invariant|post-condition of closure",
         "level_text": "For each enum receiver of the corpus the from_list / from_string / from_word emitted by the working tree's derive are proved (Verus, all inputs) equal to an oracle "
@@ -72,10 +73,10 @@ PROPS = {
         "level_note": "Proof per program; programs sampled (corpus of enum descriptors). Trusted: client-view FromMeta for inner types, parse_meta_list uninterpreted, rewrite rules incl. R13b/R5b/R7b.",
         "design_ref": "DESIGN.md section 6 C09",
         "assumptions": "L3",
-        "not_covered": ["`word = false` is read by the derive as no word variant (checked through the emitted-interface obligation only)"],
+        "not_covered": ["`word = false` is read by the derive as no word variant (checked through the emitted-interface obligation and the static from_word / is_word_target contracts)"],
     },
     "C17": {
-        "units": ["c17_sibling_alts", "c17_did_you_mean"],
+        "units": ["c17_sibling_alts", "c17_did_you_mean", "c17_unknown_field_misc"],
         "kani": [
             {"name": "c17_scorer", "crate": "c17_scorer", "tmpl": "lib.rs.tmpl", "harnesses": ["did_you_mean_is_first_best_above_threshold"], "bounded": "at most 4 candidate names (unwind 6)"},
             {"name": "c17_add_alts", "crate": "c17_scorer", "tmpl": "add_alts.rs.tmpl", "harnesses": ["add_alts_only_improves"], "bounded": "loop-free over full-domain symbolic scores: complete, not bounded"},
@@ -85,7 +86,7 @@ PROPS = {
         "gen": [{"corpus": "structs", "mode": "full"}, {"corpus": "enums", "mode": "full"}, {"corpus": "elems", "mode": "full"}],
         "classes": r"assertion failed|post-condition of closure",
         "include_text": r"strs\(__alts@\)|e_sibling_alts",
-        "classes_text": r"(postcondition|invariant|termination).* :: .*(e_sib|sib_upto|add_sibling_alts)|kani harness failed|(postcondition|invariant|assertion).* :: .*(dym_ok|score\(__f|merged\(|s_k|unknown_with_alts_ok|ErrorKind::UnknownField\(err\))",
+        "classes_text": r"(postcondition|invariant|termination).* :: .*(e_sib|sib_upto|add_sibling_alts)|kani harness failed|(postcondition|invariant|assertion).* :: .*(dym_ok|score\(__f|merged\(|s_k|unknown_with_alts_ok|ErrorKind::UnknownField\(err\)|e_unknown\(|did_you_mean: None|did_you_mean == |kind_text)",
         "level_text": "In every emitted parser of the corpus the literal candidate list passed to unknown_field_with_alts is proved equal to the names addressable at that position "
                       "(non-skip, non-flatten fields; non-skipped variants), and the names passed to add_sibling_alts_for_unknown_field on a flatten result are the parent's addressable names; "
                       "suggestions are attached only by those two calls (oracle equality under C02/C03).",
@@ -97,7 +98,7 @@ PROPS = {
                       "(what the emitted code is checked against is that the candidate list is right; what a candidate list yields is this unit).",
         "design_ref": "DESIGN.md section 6 C17",
         "assumptions": "L3",
-        "not_covered": ["Error::unknown_field_path_with_alts (path_to_string + the same with_alts call)", "feature `suggestions` off (the cfg(not(suggestions)) stub returns None by inspection; not run)", "the similarity function itself (strsim)"],
+        "not_covered": ["Error::unknown_field_path_with_alts (path_to_string + the same with_alts call); unit c17_unknown_field_misc adds Error::unknown_field == e_unknown(name) (no suggestion, span or location), From<&str>/From<String> for ErrorUnknownField, ErrorKind::description", "feature `suggestions` off (the cfg(not(suggestions)) stub returns None by inspection; not run)", "the similarity function itself (strsim)"],
     },
     "C18": {
         "units": ["c18_shape"],
@@ -188,7 +189,7 @@ PROPS = {
         "not_covered": ["splitting half of C15 (syn parser / printer): parse_meta_list, Parse/ToTokens for NestedMeta, print-parse round trip", "termination of from_expr"],
     },
     "C12": {
-        "units": ["c12_wrappers", "c12_override_expr", "c12_ident_atomic", "c12_wrapper_elements", "c12_wrapper_helpers"],
+        "units": ["c12_wrappers", "c12_override_expr", "c12_ident_atomic", "c12_wrapper_elements", "c12_wrapper_helpers", "c12_flag_misc"],
         "classes": r"postcondition|post-condition of closure|assertion failed|precondition not satisfied",
         "level_text": "Every FromMeta method of Option<T>, darling Result<T>, Result<T,Meta>, Box/Rc/Arc/RefCell<T> (macro instances), Override<T>, SpannedValue<T>, WithOriginal<T,Meta>, Flag, (), bool "
                       "is proved on its real body, for every T and item, in the form exists r0. call_ensures(T::hook, args, r0) && r == wrap(r0) (from_none likewise; SpannedValue span = path | list tokens | value expr; "
@@ -196,7 +197,7 @@ PROPS = {
                       "Element-level traits (unit c12_wrapper_elements): all six spanned! instances (Ok(v) => SpannedValue{v, span of the element}; Err(e) => e.with_span(element)), all six with_original! instances (parsed == T's outcome, original == an identical copy of the element, T's error unchanged), "
                       "all seven ignored! instances (Ok(Ignored) for every input), SpannedValue::{new, span, map_ref, Default, Deref, DerefMut, AsRef, From<T: Spanned>}, WithOriginal::new, and two-level compositions over a probe element receiver. "
                       "Helpers (unit c12_wrapper_helpers): Override::{as_ref, as_mut, is_explicit, explicit, unwrap_or, unwrap_or_else, unwrap_or_default, Default, From<Option<T>>} against the Option bijection (Inherit <-> None, Explicit(v) <-> Some(v)); "
-                      "IdentString::map (text == what map_fn returned for the old text, span kept), AsRef x2, PartialEq x3.",
+                      "IdentString::map (text == what map_fn returned for the old text, span kept), AsRef x2, PartialEq x3. Flag (unit c12_flag_misc): present / is_some / span / From<Flag> for bool / From<bool> for Flag (true <-> present, false <-> Flag(None)).",
         "level_note": "Override<T> for name=value items is its own obligation (unit c12_override_expr): it failed on the pinned tree (F2) and holds since fix commit b99d737. "
                       "SpannedValue adds the item's span to a spanless error of T (as C03 demands); otherwise errors are T's unchanged.",
         "design_ref": "DESIGN.md section 6 C12",
@@ -215,7 +216,7 @@ PROPS = {
                         "observation (not part of C12): util::Ignored overrides only from_meta, so Ignored::from_value / from_expr / from_list called directly fall back to the trait defaults and return Err although its doc says every element is read successfully; not reachable through darling's own code"],
     },
     "C10": {
-        "units": ["c10_field_options", "c10_variant_core_options", "c10_receivers", "c10_element_options", "c10_codegen_views", "c10_shape_words", "c06_middleware", "c06_parse_attr", "l2_options_api", "c10_codegen_conversions", "c10_parse_data_defaults"],
+        "units": ["c10_field_options", "c10_variant_core_options", "c10_receivers", "c10_element_options", "c10_codegen_views", "c10_shape_words", "c06_middleware", "c06_parse_attr", "l2_options_api", "c10_codegen_conversions", "c10_parse_data_defaults", "c10_default_expr_value"],
         "classes": r"postcondition|invariant|assertion failed|post-condition of closure",
         "level_text": "Every derive-time option parser of core/src/options is proved on its real body against contracts written from the rule list: InputField/InputVariant/Core/FromMetaOptions/OuterFrom/ForwardedField::parse_nested, "
                       "from_field/from_variant, Core::start, all validate_body, the six receivers' `new` (FromMeta, FromAttributes, FromDeriveInput, FromField, FromVariant, FromTypeParam) and their parse_nested/parse_field. "
@@ -245,11 +246,14 @@ PROPS = {
                         "'word = false' is counted as a word annotation by validate_body (contract and code agree); from_word ignores it (proved)"],
     },
     "C06": {
-        "units": ["c06_parse_attr", "c06_middleware", "c10_field_options", "c10_variant_core_options", "c10_receivers", "c10_element_options", "c10_codegen_views", "c10_shape_words", "l2_options_api", "c10_codegen_conversions", "c10_parse_data_defaults", "c06_derive_entry"],
+        "units": ["c06_parse_attr", "c06_middleware", "c10_field_options", "c10_variant_core_options", "c10_receivers", "c10_element_options", "c10_codegen_views", "c10_shape_words", "l2_options_api", "c10_codegen_conversions", "c10_parse_data_defaults", "c06_derive_entry", "c10_default_expr_value"],
         "classes": r"precondition not satisfied|assertion failed|postcondition|invariant|unreachable|panic",
         # parse_nested / validate_body carry C10's functional contracts (which option changes, how many violations); for C06 they count
         # with their panic-site preconditions and the accumulator-discipline assertions only
         "fn_classes": [(r"^(parse_nested|validate_body)$", r"precondition not satisfied|assertion failed|unreachable|panic")],
+        # option values are converted at derive time by the runtime library's own FromMeta impls (Flag, bool, String, Option, SpannedValue, Path, Ident, PathList, Callable,
+        # Vec<WherePredicate>, RenameRule): C06 depends on them for TOTALITY only - their panic-class obligations count here, their functional contracts stay with C11/C12/C13
+        "panic_units": ["c12_wrappers", "c11_misc", "c13_syn_values", "c13_callable_group", "c15_routing"],
         # parse_body's `__checked` assertions state C10's "all violated rules are reported in one pass" (no exit before validate_body has run): not a totality claim
         "exclude_text": r"__checked",
         "level_text": "Every panic!/unreachable!/unwrap in the option layer is kept in the extracted text and proved unreachable: parse_field/parse_variant/parse_body from the body-shape agreement Core::start establishes and option parsing preserves, "
@@ -258,7 +262,7 @@ PROPS = {
                       "codegen preconditions hold (wf, representable body, no cross-field violation, struct body for element-level traits) or a bundle of >= 1 diagnostics; a union, an empty enum and an enum with variants are rejected for element-level traits. "
                       "Entry points (unit c06_derive_entry): each of the six derive::* functions returns exactly write_errors(e) when the receiver's `new` fails and exactly the tokens of the receiver when it succeeds, with no panic path; into_token_stream's precondition (container default never Inherit) is discharged from `new`'s contract.",
         "level_note": "Covers the option-parsing half of all six derives. F1/F4 (and F12: empty enum) fixed in /repo (ae776c6, 5ac3a9a, 508a424) and in the baseline. Not covered: codegen to_tokens skeleton, 'exactly one impl block', write_errors. "
-                      "syn parsers and option-value converters are assumed not to panic.",
+                      "syn parsers are assumed not to panic; the runtime library's own option-value converters (Flag, bool, String, Option, SpannedValue, Path, Ident, PathList, Callable, the FromMeta routing defaults) are proved panic-free in the panic_units c12_wrappers / c11_misc / c13_syn_values / c13_callable_group / c15_routing (their panic-class obligations count for C06), user-supplied converters are external.",
         "design_ref": "DESIGN.md section 6 C06",
         "assumptions": ["as C10", "c06_derive_entry / c10_codegen_conversions: token emission is modelled (prelude/options_tokens.vrs): tokens_of/tokens_cat/error_tokens/empty_tokens uninterpreted, ToTokens impls of the six impl structs external; Data::{as_ref, map_struct_fields, map_enum_variants} and FromMetaOptions/FromAttributesOptions::new restated as external contracts (proved in c16_body_conversion / c10_receivers)", "R13: ghost flag/counter set at Error::accumulator(), asserted clear at every expanded `?`/return (guard_try)",
                         "R18: `E?` on a syn::Result expanded to match + Error::from(e); NestedMeta::parse_meta_list and From<syn::Error> uninterpreted",
@@ -333,7 +337,7 @@ PROPS = {
     "C07": {
         "ignore_tags": True,
         "classes_text": r"assertion failed :: .*(__live|__armed)",
-        "units": ["c11_ints", "c11_nonzero", "c11_misc", "c13_syn_values", "c12_wrappers", "c15_routing", "c18_shape", "c16_body_conversion", "c16_generics", "c14_maps", "c14_key_ident", "c08_parse_attribute", "c04_syn_conversion", "c04_error_tree", "c05_accumulator", "c17_sibling_alts", "c13_arrays", "c13_parse_expr", "c13_callable_group", "c12_ident_atomic", "c12_override_expr", "c17_did_you_mean", "c12_wrapper_elements", "c12_wrapper_helpers", "c19_usage_outer", "c19_outer_from_impl", "c13_path_helpers", "c13_callable_conv", "c16_fields_helpers"],
+        "units": ["c11_ints", "c11_nonzero", "c11_misc", "c13_syn_values", "c12_wrappers", "c15_routing", "c18_shape", "c16_body_conversion", "c16_generics", "c14_maps", "c14_key_ident", "c08_parse_attribute", "c04_syn_conversion", "c04_error_tree", "c05_accumulator", "c17_sibling_alts", "c13_arrays", "c13_parse_expr", "c13_callable_group", "c12_ident_atomic", "c12_override_expr", "c17_did_you_mean", "c12_wrapper_elements", "c12_wrapper_helpers", "c19_usage_outer", "c19_outer_from_impl", "c13_path_helpers", "c13_callable_conv", "c16_fields_helpers", "c12_flag_misc", "c16_passthrough_misc", "c17_unknown_field_misc"],
         "gen": [{"corpus": "structs", "mode": "full"}, {"corpus": "enums", "mode": "full"}, {"corpus": "elems", "mode": "full"}, {"corpus": "supports", "mode": "full"}],
         "classes": r"precondition not satisfied|overflow|underflow|division by zero|index out of|unreachable|panic",
         "level_text": "Every expect()/unwrap/index/arithmetic site and every accumulator-armed precondition in the emitted parsers is a proved Verus precondition for all inputs "
